@@ -1,4 +1,4 @@
 From Coq Require Import ExtrOcamlBasic.
-From BU Require Import Extract.Api.
+From BU Require Import Extract.ApiCommon Extract.Api.
 Extraction Language OCaml.
-Extraction "model.ml" dispatch result_code.
+Extraction "model.ml" Api.dispatch ApiCommon.result_code.
